@@ -207,6 +207,9 @@ func oasTypes(d *ioDoc, refPrefix string, shape map[string]any) m {
 					shape[t.Name] = "format=int64"
 				}
 			}
+			if f, has := p["format"].(string); has && shape != nil {
+				shape[t.Name] = "format=" + f
+			}
 			out[t.Name] = p
 		}
 	}
@@ -1393,6 +1396,7 @@ func interopImport(w *tr.Writer, sc *ioScenario, logger *logrus.Logger) {
 			// format defines
 			oasFormat = func(string) string { return "" }
 			if sc.ID%3 == 0 {
+				shape["formats"] = "written"
 				frng := rand.New(rand.NewSource(sc.Seed*31 + int64(sc.ID)))
 				oasFormat = func(kind string) string {
 					if kind == "int" {
